@@ -1080,8 +1080,11 @@ def builtins_case(seed):
     args = [x, y] + ([Num(rnd.randint(-1, 2))] if rnd.random() < 0.5 else [])
     rules.append(Rule('P', [x, y, Builtin(name, args)], body=A('E', x, y)))
   elif kind == 'arith':
-    e = rnd.choice([Bin('-', Bin('+', x, y), Bin('*', Num(3), x)), UMinus(Bin('-', x, y)),
-                    Bin('*', Num(-2), Bin('+', x, Num(1))), Bin('-', x, UMinus(y))])
+    exprs = [Bin('%', x, Num(rnd.choice([2, 3, -3, 5]))), Bin('-', Bin('+', x, y), Bin('*', Num(3), x)),
+             Bin('%', Bin('-', x, y), Num(rnd.choice([3, -2]))), UMinus(Bin('-', x, y)),
+             Bin('+', Bin('%', x, Num(3)), Bin('%', UMinus(x), Num(3))), Bin('*', Num(-2), Bin('+', x, Num(1))),
+             Bin('-', x, UMinus(y))]
+    e = exprs[(seed // 12) % len(exprs)]     # every window of four consecutive programs has a remainder
     rules.append(Rule('P', [x, y, e], body=A('E', x, y)))
   else:
     ops = ['==', '!=', '<', '<=', '>', '>=']
